@@ -15,6 +15,7 @@ from __future__ import annotations
 
 from harness.core import stable
 import collections
+import json
 import random
 import warnings
 
@@ -179,6 +180,48 @@ def replay_alt_history(job):
     return out
 
 
+XSD_DEF = f'''<xs:schema xmlns:xs="{cm.XS}">
+<xs:complexType name="Base"><xs:sequence/><xs:attribute name="id" type="xs:string"/></xs:complexType>
+<xs:complexType name="D1"><xs:complexContent><xs:extension base="Base">
+  <xs:attribute name="code" type="xs:string" default="X"/></xs:extension></xs:complexContent></xs:complexType>
+<xs:complexType name="D2"><xs:complexContent><xs:extension base="Base">
+  <xs:attribute name="code" type="xs:string" default="Y"/></xs:extension></xs:complexContent></xs:complexType>
+<xs:element name="items"><xs:complexType><xs:sequence>
+  <xs:element name="item" type="Base" maxOccurs="unbounded"/></xs:sequence></xs:complexType>
+  <xs:unique name="uniqueCode"><xs:selector xpath="item"/><xs:field xpath="@code"/></xs:unique></xs:element>
+</xs:schema>'''
+
+
+def def_xml(d):
+    def item(it):
+        return f'<item xsi:type="{it["xt"]}"' + ("" if it["code"] == "absent" else f' code="{it["code"]}"') + "/>"
+    return f'<items {XSI}>{item(d["i1"])}{item(d["i2"])}</items>'
+
+
+def replay_def_history(job):
+    """spec/HistoryDef.tla: field values from type-dependent defaults, histories on ONE schema object."""
+    hist, ver = job
+    schema = load(ver, [XSD_DEF])
+    out = []
+    for i, step in enumerate(hist):
+        xml = def_xml(step["doc"])
+        try:
+            got, detail = call(schema, step["op"], xml)
+            fgot, fdetail = fresh_result(ver, (XSD_DEF,), step["op"], xml)
+        except Exception as e:      # noqa: BLE001
+            out.append((i, f"raised {type(e).__name__}: {e}"[:200], None))
+            break
+        if fgot != step["fresh"]:
+            out.append((i, f"fresh schema on {xml}: invalid={fgot}, specification (intended) says {step['fresh']}",
+                        None))
+            break
+        if (got, detail) != (fgot, fdetail):
+            out.append((i, f"call {i + 1} ({step['op']} on {xml}): invalid={got} after this history, "
+                        f"a fresh schema says invalid={fgot}; details {detail} vs {fdetail}"[:500], None))
+            break
+    return out
+
+
 OPS = ["is_valid", "iter_errors", "decode_lax", "validate", "lazy", "objects", "hook", "decode_skip", "abort",
        "extra_abort"]
 
@@ -272,6 +315,24 @@ def run(ctx: Ctx):
         nalt += len(ajobs)
         ctx.extra[f"alt_histories_{al}"] = len(ajobs)
     ctx.impl_replays += nalt
+    # third scenario: identity fields read from type-dependent defaults (spec/HistoryDef.tla)
+    ctx.tlc("HistoryDef", "HistoryDef.cfg", constants={"Variant": '"intended"', "MaxCalls": 2}, tag="def-intended")
+    ref = ctx.tlc("HistoryDef", "HistoryDef.cfg", constants={"Variant": '"cached"', "MaxCalls": 2},
+                  expect_violation=True, count=False, tag="def-cached")
+    if "HistoryIndependent" not in ref.invariant_violated:
+        raise MachineryError("HistoryDef variant cached is not refuted: HistoryIndependent vacuous?")
+    e = ctx.tlc("HistoryDef", "HistoryDef_emit.cfg", constants={"Variant": '"intended"', "MaxCalls": 2},
+                tag="def-emit", count=False)
+    dhists = sorted((r["hist"] for r in e.json_records()), key=lambda h: json.dumps(h, sort_keys=True))
+    if not thorough:
+        dhists = dhists[ctx.seed % 5::5]
+    djobs = [(h, ver) for h in dhists for ver in ("1.0", "1.1")]
+    for (h, ver), bad in zip(djobs, ctx.pmap(replay_def_history, djobs)):
+        for i, what, finding in bad:
+            ctx.report({"driver": "def-history", "ver": ver, "history": h, "step": i, "observed": what},
+                       f"{ver} type-dependent defaults: {what}", finding=finding)
+    ctx.extra["def_histories"] = len(djobs)
+    ctx.impl_replays += len(djobs)
     # seeded histories over the pool schemas
     cases = pool.build_pool(ctx, scale=2)
     by = collections.defaultdict(list)
@@ -322,6 +383,9 @@ def replay(ctx: Ctx, case):
             ctx.report(dict(case, observed=what), what, finding=finding)
     elif case.get("driver") == "alt-history":
         for i, what, finding in replay_alt_history((case["history"], case["alts"])):
+            ctx.report(dict(case, observed=what), what, finding=finding)
+    elif case.get("driver") == "def-history":
+        for i, what, finding in replay_def_history((case["history"], case["ver"])):
             ctx.report(dict(case, observed=what), what, finding=finding)
     else:
         schema = load(case["ver"], case["xsds"])
